@@ -81,7 +81,12 @@ func (r *Run) Check(cond bool, rule, construct string, pos token.Pos, okDetail, 
 }
 
 // Floor fails the run as vacuous when a role resolved to fewer constructs than confirmed by hand.
-func (r *Run) Floor(rule, role string, got, min int) bool {
+// Floor guards against vacuity: a rule whose role resolves to (almost) nothing has stopped checking anything.
+// `confirmed` is the number of constructs confirmed by hand on the pinned tree; the floor is half of it (rounded
+// up), so that merging duplicated sites into a shared helper — a behaviour-preserving clean-up — does not trip it,
+// while the disappearance of the mechanism does.
+func (r *Run) Floor(rule, role string, got, confirmed int) bool {
+	min := (confirmed + 1) / 2 // 0 stays 0: a census whose expected count is zero
 	if got < min {
 		r.add(Obligation{Rule: rule, Construct: "floor(" + role + ")", Status: "violation",
 			Detail: fmt.Sprintf("vacuous: role %q resolved to %d construct(s), need >= %d — the mechanism this rule checks is gone or unrecognisable", role, got, min)})
